@@ -6,7 +6,10 @@ Everything is read from the AST of the datatype package; nothing is imported or 
                  (sequences of literal text and named groups; optional parts and top-level alternations are
                  expanded)  ->  its *field shapes*: the syntax tree of Timex.assign_properties (and whatever it calls)
                  is run by a small whitelisting interpreter on the group dictionary of every shape with representative
-                 texts, which tabulates the field every group is written to and with which conversion - whether the
+                 texts (the dictionary is produced by interpreting TimexRegex.extract / try_extract over a capturing
+                 matcher on the regex syntax trees, so optional groups that did not take part are present as None
+                 exactly when the code copies them), which tabulates the field every group is written to, with which
+                 conversion, and that no field is set without its group - whether the
                  code is an if/elif chain, class-level tables + setattr, or a dict dispatch.
   parsing side   TimexParsing.parse_string is run the same way on canonical probe strings; the pieces it hands to the
                  regex tables must be the components of the string (C14.split).
@@ -296,6 +299,115 @@ class Shape:
 # concrete interpreter for the parsing side (strings, ints, lists, dicts; whitelisted stdlib operations only).
 # It runs the *syntax trees* of TimexParsing.* and Timex.assign_* on probe inputs; nothing of /repo is imported.
 
+def match_groups(tree, word, names):
+    """first match of tree at the start of word in backtracking order (alternatives left to right, greedy repeats),
+    with ^ and $ honoured: -> (end, {group name: text or None}) or None"""
+    import sys
+    if sys.getrecursionlimit() < 20000:
+        sys.setrecursionlimit(20000)
+    n = len(word)
+
+    def m(node, i, caps, k):
+        kind = node.kind
+        if kind in ('lit', 'any', 'cc', 'class', 'range'):
+            if i < n and (word[i] == node.c if kind == 'lit' else rx._ch_match(node, word[i])):
+                return k(i + 1, caps)
+            return None
+        if kind == 'seq':
+            def run(idx, j, c):
+                if idx == len(node.items):
+                    return k(j, c)
+                return m(node.items[idx], j, c, lambda j2, c2: run(idx + 1, j2, c2))
+            return run(0, i, caps)
+        if kind == 'alt':
+            for a in node.items:
+                r = m(a, i, caps, k)
+                if r is not None:
+                    return r
+            return None
+        if kind == 'group':
+            if node.name:
+                return m(node.node, i, caps, lambda j, c: k(j, dict(c, **{node.name: word[i:j]})))
+            return m(node.node, i, caps, k)
+        if kind == 'anchor':
+            if node.c == '^' and i != 0:
+                return None
+            if node.c in ('$', '\\Z', '\\z') and i != n:
+                return None
+            if node.c not in ('^', '$', '\\Z', '\\z', '\\A'):
+                raise rx.RxUnsupported('anchor ' + node.c)
+            return k(i, caps)
+        if kind == 'flags':
+            return k(i, caps)
+        if kind == 'rep':
+            def rep(cnt, j, c):
+                if node.hi is None or cnt < node.hi:
+                    r = m(node.node, j, c, lambda j2, c2: rep(cnt + 1, j2, c2) if j2 > j else None)
+                    if r is not None and not node.lazy:
+                        return r
+                    if node.lazy:
+                        r0 = k(j, c) if cnt >= node.lo else None
+                        return r0 if r0 is not None else r
+                if cnt >= node.lo:
+                    return k(j, c)
+                return None
+            return rep(0, i, caps)
+        raise rx.RxUnsupported('construct %s in a capturing match' % kind)
+
+    r = m(tree, 0, {}, lambda j, c: (j, c))
+    if r is None:
+        return None
+    return r[0], {g: r[1].get(g) for g in names}
+
+
+class MatchStandIn:
+    """what re.Match offers to the code under analysis"""
+
+    def __init__(self, word, end, groups):
+        self._word, self._end, self._groups = word, end, groups
+
+    def groupdict(self, default=None):
+        return {k: (default if v is None else v) for k, v in self._groups.items()}
+
+    def group(self, *names):
+        def one(nm):
+            if nm == 0:
+                return self._word[:self._end]
+            if nm not in self._groups:
+                raise IndexError('no such group')
+            return self._groups[nm]
+        if not names:
+            return one(0)
+        return one(names[0]) if len(names) == 1 else tuple(one(x) for x in names)
+
+    def end(self):
+        return self._end
+
+
+class RegexStandIn:
+    """what a compiled pattern offers: match / fullmatch on the regex syntax tree"""
+
+    def __init__(self, src):
+        self.src = src
+        try:
+            self.tree, self.names = rx.parse_with_groups(src)
+        except rx.RxError as ex:
+            raise AnalysisError('pattern %r not analysable: %s' % (src, ex))
+
+    def match(self, word):
+        if not isinstance(word, str):
+            raise TypeError('expected string or bytes-like object')
+        try:
+            r = match_groups(self.tree, word, self.names)
+        except rx.RxError as ex:
+            raise AnalysisError('pattern %r: %s' % (self.src, ex))
+        return None if r is None else MatchStandIn(word, r[0], r[1])
+
+    def fullmatch(self, word):
+        r = self.match(word)
+        return r if r is not None and r.end() == len(word) else None
+
+
 class PyRaise(Exception):
     """the interpreted code raises an exception"""
 
@@ -335,7 +447,11 @@ def _safe_methods():
         set: {'add'}, frozenset: set(),
         decimal.Decimal: {'normalize', 'quantize', 'to_integral_value', 'to_integral', 'copy_abs'},
         int: set(), float: set(), bool: set(), type(None): set(),
+        RegexStandIn: {'match', 'fullmatch'}, MatchStandIn: {'groupdict', 'group', 'end'},
     }
+
+
+_CONST_CACHE = {}
 
 
 class PEv:
@@ -640,7 +756,11 @@ class PEv:
         try:
             return ast.literal_eval(v)       # a dict literal with a repeated key keeps the last value, as Python does
         except (ValueError, SyntaxError):
-            self.err(node, 'class attribute is not a literal')
+            pass
+        key = id(v)
+        if key not in _CONST_CACHE:
+            _CONST_CACHE[key] = self.ev(v, {})      # e.g. a table of re.compile(...) objects
+        return _CONST_CACHE[key]
 
     def call(self, e, env):
         ch = chain(e.func) or ''
@@ -657,6 +777,8 @@ class PEv:
         for suffix, hook in self.hooks.items():
             if ch == suffix or ch.endswith('.' + suffix):
                 return hook(args, kwargs)
+        if ch in ('re.compile', 'regex.compile') and len(args) == 1 and isinstance(args[0], str) and not kwargs:
+            return RegexStandIn(args[0])
         f = self.ev(e.func, env)
         if isinstance(f, tuple) and f[0] == 'func':
             return self.call_fn(f[1], f[2], args, kwargs, f[3], e)
@@ -756,6 +878,8 @@ def tabulate_assign(cx, chk, fams):
     import decimal
     tcls = cx.cls('timex', 'Timex')
     fn = cx.meth('timex', 'Timex', 'assign_properties')
+    rcls = cx.cls('timex_regex', 'TimexRegex')
+    extract_fn = cx.meth('timex_regex', 'TimexRegex', 'extract')
     init = cx.meth('timex', 'Timex', '__init__')
     fields = {st.targets[0].attr for st in init.body if isinstance(st, ast.Assign) and len(st.targets) == 1
               and isinstance(st.targets[0], ast.Attribute) and chain(st.targets[0].value) == 'self'}
@@ -784,28 +908,34 @@ def tabulate_assign(cx, chk, fams):
         runs = []
         for combo in itertools.product(*plists):
             texts = dict(zip([t.name for t in gtoks], combo))
+            word = ''.join(t.text if t.kind == 'lit' else texts[t.name] for t in seq)
+            # the group dictionary as the code under analysis builds it: TimexRegex.extract (interpreted on the regex
+            # syntax trees) copies groupdict() - groups that did not participate are present with value None unless
+            # the extraction code filters them
             source = {}
-            for g in allgroups:                      # re.Match.groupdict(): unmatched optional groups are None
-                source[g] = texts.get(g)
             rec = Rec(tcls)
             try:
-                PEv(cx, tcls.mod).call_fn(tcls, fn, [source], {}, rec, fn)
-                err = None
+                PEv(cx, rcls.mod).call_fn(rcls, extract_fn, [fam, word, source], {}, None, extract_fn)
+                if {g: source.get(g) for g in texts} != texts:
+                    err = 'extraction of %r yields %r, expected the groups %r' % (word, source, texts)
+                else:
+                    PEv(cx, tcls.mod).call_fn(tcls, fn, [source], {}, rec, fn)
+                    err = None
             except PyRaise as ex:
                 err = str(ex)
-            runs.append((texts, rec.attrs, err))
+            runs.append((texts, rec.attrs, err, word))
         # which alternative groups act as selectors (their value decides where the rest is stored)
         selectors = set()
         for t in gtoks:
             if kinds[t.name] != 'alts':
                 continue
             by_rest = {}
-            for texts, attrs, err in runs:
+            for texts, attrs, err, word in runs:
                 rest = tuple(sorted((k, v) for k, v in texts.items() if k != t.name))
                 by_rest.setdefault(rest, set()).add(frozenset(attrs))
             if any(len(s) > 1 for s in by_rest.values()):
                 selectors.add(t.name)
-        for texts, attrs, err in runs:
+        for texts, attrs, err, word in runs:
             if err is not None:
                 note(fam, src, line, '<all groups>', False, 'raises',
                      'Timex.assign_properties raises %s for the group dictionary %r of /%s/' % (
@@ -878,6 +1008,17 @@ def tabulate_assign(cx, chk, fams):
                         cur[2] = ('the amount %r is stored in %s as %r, which str() prints as %r: /%s/ does not accept that '
                                   'text or it is another number - the formatted TIMEX does not parse back'
                                   % (text, f, v, printed, rx.unparse(t.node)))
+            # every field that ends up set must come from a group that took part in the match
+            explained = set(used_fields) | flags
+            for f, v in sorted(attrs.items(), key=lambda kv: kv[0]):
+                if f in explained or v is None or v is False:
+                    continue
+                absent = [g for g in allgroups if g not in texts]
+                ok_shape = False
+                note(fam, src, line, f if f in absent else '<field %s>' % f, False, 'set to %r without its group' % (v,),
+                     'for %r (groups %s; %s did not take part in the match) Timex.assign_properties sets %s = %r: the '
+                     'field does not come from the text, the string formats back differently'
+                     % (word, ', '.join('%s=%r' % kv for kv in texts.items()), ', '.join(absent) or 'none', f, v))
             if ok_shape:
                 shapes.append(Shape(fam, src, line, merge_lits(toks), flags, [t.name for t in gtoks]))
     for (fam, src, group), (ok, detail, msg, line) in verdicts.items():
